@@ -8,7 +8,8 @@ CONSTANTS
   WatcherByEpoch = TRUE
   HookCurrent = TRUE
   SwapGuarded = TRUE
+  SupervisorOrClosed = TRUE
   AllowClose = TRUE
 VIEW View
-INVARIANTS TokenPerDial NoStreamDetached CallersSurvive NotificationsOnce NoPanic NoDialAfterClose NoCallerParkedWhenClosed SilentAfterDisconnect
+INVARIANTS TokenPerDial NoStreamDetached CallersSurvive NotificationsOnce NoPanic NoDialAfterClose NoCallerParkedWhenClosed NoSupervisorParkedWhenClosed SilentAfterDisconnect
 CHECK_DEADLOCK FALSE
